@@ -29,6 +29,7 @@ RULE = (
     "request: exception class, template name, path, str(template), probe-render output and effective globals equal the twin's; with "
     "auto_reload off an earlier version of the same (namespace, name) is accepted for the source-dependent fields. Non-trivial = history "
     "with at least one cache hit; distinct by the whole history."
+    " Rounds 5-6 added enumerated families: names with a directory part spelled like a namespace, before and after the namespaced request."
 )
 REQUIRED = [
     ("liquid/builtin/loaders/mixins.py", "CachingLoaderMixin.cache_key"),
